@@ -32,8 +32,20 @@ Theorem receipt_plain s r e :
   exists s', handle_receipt s r true = (s', [HReceipt (rc_uid r) (sm_log (e_msg e))])
              /\ h_deliv s' = ddel (rc_id r) (h_deliv s) /\ h_corr s' = h_corr s.
 Proof.
-  intros Hd Hs. unfold handle_receipt, get_delivery. cbn [negb]. rewrite Hd, Hs.
-  unfold get_segmented. rewrite Hs. eexists. split; [reflexivity|]. split; reflexivity.
+  intros Hd Hs. unfold handle_receipt, get_delivery. cbn [negb]. rewrite Hd. cbv zeta.
+  destruct (is_segment (e_msg e)) eqn:Es.
+  - rewrite Hs. cbv beta iota zeta. rewrite Es. unfold get_segmented. rewrite Hs. eexists. split; [reflexivity|]. split; reflexivity.
+  - cbv beta iota zeta. rewrite Es. eexists. split; [reflexivity|]. split; reflexivity.
+Qed.
+
+(* ... whichever newer message uses its sequence number by now: a message that was not segmented has no segment status *)
+Theorem receipt_unsegmented s r e :
+  dget (rc_id r) (h_deliv s) = Some e -> is_segment (e_msg e) = false ->
+  exists s', handle_receipt s r true = (s', [HReceipt (rc_uid r) (sm_log (e_msg e))])
+             /\ h_deliv s' = ddel (rc_id r) (h_deliv s) /\ h_corr s' = h_corr s.
+Proof.
+  intros Hd Hs. unfold handle_receipt, get_delivery. cbn [negb]. rewrite Hd. cbv zeta. rewrite Hs.
+  cbv beta iota zeta. rewrite Hs. eexists. split; [reflexivity|]. split; reflexivity.
 Qed.
 
 (* the delivery store only ever maps an id to the message whose accepted response carried it *)
@@ -125,7 +137,8 @@ Qed.
 Lemma get_delivery_cur c d r : c_cur (fst (fst (get_delivery c d r))) = c_cur c.
 Proof.
   unfold get_delivery. destruct (dget (rc_id r) d) as [e|]; [|reflexivity].
-  destruct (dget (sm_seq (e_msg e)) (c_seg c)) as [[ref sseq]|]; [|reflexivity]. destruct (dget ref (c_stat c)); reflexivity.
+  cbv zeta. destruct (if is_segment (e_msg e) then dget (sm_seq (e_msg e)) (c_seg c) else None) as [[ref sseq]|]; [|reflexivity].
+  destruct (dget ref (c_stat c)); reflexivity.
 Qed.
 
 Lemma receipt_cur s rc b : c_cur (h_corr (fst (handle_receipt s rc b))) = c_cur (h_corr s).
@@ -133,7 +146,9 @@ Proof.
   unfold handle_receipt. destruct (negb b); [reflexivity|].
   pose proof (get_delivery_cur (h_corr s) (h_deliv s) rc) as P. destruct (get_delivery (h_corr s) (h_deliv s) rc) as [[c1 d1] om]. cbn [fst] in P.
   destruct om as [m|]; [|exact P].
-  pose proof (get_segmented_cur c1 (sm_seq m) true) as G. destruct (get_segmented c1 (sm_seq m) true) as [[c2 oss] code]. cbn [fst] in G.
+  assert (c_cur (fst (fst (if is_segment m then get_segmented c1 (sm_seq m) true else (c1, None, 0)))) = c_cur c1) as G
+    by (destruct (is_segment m); [apply get_segmented_cur|reflexivity]).
+  destruct (if is_segment m then get_segmented c1 (sm_seq m) true else (c1, None, 0)) as [[c2 oss] code]. cbn [fst] in G.
   assert (forall s3 : hstate, h_corr s3 = c2 -> c_cur (h_corr s3) = c_cur (h_corr s)) as Hs3 by (intros s3 ->; rewrite G; exact P).
   destruct oss as [ss|]; [|apply Hs3; reflexivity].
   destruct ((code =? STATUS_SENDING) || (code =? STATUS_SENT)); [apply Hs3; reflexivity|]. destruct (ss_last_rcpt ss); apply Hs3; reflexivity.
@@ -155,6 +170,9 @@ Section Group.
 
   Definition seg (i : nat) : smsg :=
     {| sm_uid := uid i; sm_cmd := 4; sm_seq := sq i; sm_log := log; sm_sar := (r, Z.of_nat i + 1, Z.of_nat k) |}.
+
+  Lemma seg_is_segment i : is_segment (seg i) = true.
+  Proof. unfold is_segment, seg. cbn [sm_sar snd]. apply andb_true_intro. split; [apply Z.ltb_lt|apply Z.leb_le]; lia. Qed.
 
   (* the key of the message's status cell: its reference combined with the sequence number of its first segment *)
   Definition K : Z := skey r (sq 0%nat).
@@ -303,7 +321,7 @@ Section Group.
     assert (forallb (fun j => is_not (ph j)) idx = false) as Fn by (apply (forallb_idx_false _ i Hi); rewrite Hp; reflexivity).
     assert (forallb (fun j => is_done (ph j)) idx = false) as Fd by (apply (forallb_idx_false _ i Hi); rewrite Hp; reflexivity).
     rewrite Fn, Fd in Hc. cbn [orb] in Hc. destruct Hc as (cell & Hcell & Hst & Hlr).
-    unfold handle_receipt, get_delivery. cbn [negb]. rewrite Hid, Hde, Hem. cbn [seg sm_seq]. rewrite Hbi, Hcell.
+    unfold handle_receipt, get_delivery. cbn [negb]. rewrite Hid, Hde, Hem. cbv zeta. rewrite seg_is_segment. cbn [seg sm_seq]. rewrite Hbi, Hcell.
     set (ss1 := set_status cell (Z.of_nat i + 1) (rc_err rc)).
     assert (ss_status ss1 = status_of ph') as Hst1.
     { unfold ss1, set_status. cbn [ss_status]. rewrite Hst. apply (status_set ph i (PDone (rc_err rc)) Hi). }
@@ -314,7 +332,7 @@ Section Group.
       rewrite E1. destruct lrc as [[u0 e0]|]; cbn [option_map fst];
         destruct (0 <? rc_err rc); cbn [orb]; split; try exact Hst1; try reflexivity; cbn; exact E1. }
     set (c1 := with_stat (h_corr s) (dset (c_stat (h_corr s)) K ss2)).
-    unfold get_segmented. cbn [with_stat c_seg sm_seq seg]. change (c_seg c1) with (c_seg (h_corr s)). rewrite Hbi.
+    rewrite seg_is_segment. unfold get_segmented. cbn [with_stat c_seg sm_seq seg]. change (c_seg c1) with (c_seg (h_corr s)). rewrite Hbi.
     cbn [with_seg c_stat]. change (c_stat c1) with (dset (c_stat (h_corr s)) K ss2). rewrite dget_dset_same.
     assert (errs_ok ph') as He'.
     { intros j e' Hj Hpj. unfold ph' in Hpj. destruct (Nat.eq_dec j i) as [->|Hne].
